@@ -308,3 +308,42 @@ Theorem C02_source_order_protocol :
   c02proto_calls_start = start_calls /\ c02proto_calls_end = end_calls.
 Proof. exact source_order. Qed.
 Print Assumptions C02_source_order_protocol.
+
+(* THE LIMITER.  Model/CopyImplSem.v models golang.org/x/sync/semaphore.Weighted (v0.13.0) with unit
+   weights - FIFO waiter list, notifyWaiters, cancellation of a queued waiter, the give-back of a
+   waiter granted after its context was done - and is compared on every run with the real semaphore
+   driven by scripted Acquire / Release / cancel sequences (harness sem.go).  In every reachable state:
+   tokens out = held + handed to granted waiters, held + granted + free = size, never more than size
+   held, and NO WAITER IS QUEUED WHILE A PERMIT IS FREE (no lost wake-up) - the liveness assumption behind
+   "LStart / LDispatchAcq are enabled whenever free > 0" of the protocol model. *)
+From Oras Require Import Model.CopyImplSem Proofs.CopyImplSem.
+Theorem C04_semaphore_sound_protocol : forall n s, SReach n s ->
+  s_cur s = s_held s + length (s_granted s) /\ s_held s + length (s_granted s) + sfree s = n /\
+  s_held s <= n /\ (s_wait s <> [] -> sfree s = 0).
+Proof. exact sem_sound. Qed.
+Print Assumptions C04_semaphore_sound_protocol.
+
+(* the semaphore refines the counter abstraction of the protocol model: an Acquire is granted at once
+   only when a permit is free and takes exactly one; a blocked / failed Acquire and a cancelled waiter
+   change nothing; a Release (and the give-back of a cancelled granted waiter) frees one permit, which is
+   either free afterwards or already handed to the first waiter *)
+Theorem C04_semaphore_refines_counter_protocol : forall n s o s' r, SReach n s -> sstep s o = Some (s', r) ->
+  match o, r with
+  | SAcquire _ _, RGranted => 0 < sfree s /\ sfree s' = sfree s - 1
+  | SAcquire _ _, _ => sfree s' = sfree s
+  | SRelease, RDone woken => sfree s' + length woken = S (sfree s)
+  | SWake _ false, _ => sfree s' = sfree s
+  | SWake _ true, RDone woken => sfree s' + length woken = S (sfree s)
+  | SCancel _, RDone woken => woken = [] /\ sfree s' = sfree s
+  | _, _ => True
+  end.
+Proof. exact sem_refines_counter. Qed.
+Print Assumptions C04_semaphore_refines_counter_protocol.
+
+(* a concrete script (size 1): acquire, two blocked acquires, cancel the second, release wakes the first *)
+Example ex_sem :
+  match srun (ssize_init 1) [SAcquire 0 false; SAcquire 1 false; SAcquire 2 false; SCancel 2; SRelease; SWake 1 false] with
+  | Some s => s_held s = 1 /\ s_wait s = [] /\ s_cur s = 1 /\ sfree s = 0
+  | None => False
+  end.
+Proof. vm_compute. repeat split; reflexivity. Qed.
